@@ -58,7 +58,7 @@ RMaxRatio(order) == IF order = 3 THEN "1000" ELSE IF order = 5 THEN "20" ELSE "4
 AllPos(T) == \A i \in 1..Len(T) : RLt(Zero, T[i])
 InW(order, T) == /\ AllPos(T)
                  /\ RLe(Ratio(T), RMaxRatio(order))
-                 /\ RLe(RPow("1/10", Len(T)), RProd(T)) /\ RLe(RProd(T), RPow("10", Len(T)))
+                 /\ RLe(RPow("1/10000", Len(T)), RProd(T)) /\ RLe(RProd(T), RPow("200000", Len(T)))   \* overall size: 0.1 ms .. 2 days
 InA(T) == Len(T) >= 2 /\ (\A i \in 1..Len(T) : RLe(MinDur, T[i])) /\ RLe(Ratio(T), "100")
 
 (* --------------------- reading a build event -------------------------- *)
